@@ -309,6 +309,11 @@ class Model:
         if node_id in self.nodes:
             setattr(self.nodes[node_id], name, value)
 
+    def forget(self, node_id: int) -> None:
+        """The application deletes a node from the registry: the id is no longer in use."""
+        self.nodes.pop(node_id, None)
+        self.handed_out.discard(node_id)
+
     def restore(self, node_id: int, node: MNode) -> None:
         """A node restored from persistence (inserted by the application)."""
         self.nodes[node_id] = node
